@@ -1,8 +1,11 @@
 #!/venv/bin/python
-"""Regenerate MANIFEST.json from tools/claims.json (one record per claimed property)."""
+"""Regenerate MANIFEST.json from tools/claims.d/Cxx.json (one file per claimed property)."""
 import json, os, subprocess
 HERE = os.path.dirname(os.path.dirname(os.path.abspath(__file__)))
-claims = json.load(open(os.path.join(HERE, 'tools', 'claims.json')))
+import glob
+claims = {}
+for f in sorted(glob.glob(os.path.join(HERE, 'tools', 'claims.d', '*.json'))):
+    claims[os.path.basename(f)[:-5]] = json.load(open(f))
 props = [json.loads(l) for l in open(os.path.join(HERE, 'properties.jsonl'))]
 ids = [p['id'] for p in props]
 checks, na = [], []
@@ -25,7 +28,7 @@ for pid in ids:
 fixes = subprocess.run(['git', '-C', '/repo', 'log', '--format=%h %s', '9bc97df..HEAD'], stdout=subprocess.PIPE, text=True).stdout.split('\n')
 man = {
     'version': 1,
-    'setup_cmd': 'cd /verif/coq && coq_makefile -f _CoqProject -o Makefile > /dev/null && timeout 3000 make -j16 > /verif/_build_setup.log 2>&1 || (tail -50 /verif/_build_setup.log; exit 1)',
+    'setup_cmd': 'cd /verif && mkdir -p _build && /venv/bin/python tools/gen_coqproject.py && cd coq && coq_makefile -f _CoqProject -o Makefile > /dev/null && (timeout 3000 make -j16 > /verif/_build/setup.log 2>&1 || (tail -50 /verif/_build/setup.log; exit 1))',
     'hooks': {'guard': 'RMS_POLYMATH_VERIF', 'enable': 'no source hooks are needed: every check imports /repo with PYTHONPATH=/repo and observes public attributes only',
               'baseline_off_cmd': 'cd /repo && /venv/bin/python -m pytest -ra -q -p no:cacheprovider --timeout=900 --continue-on-collection-errors',
               'source_commits': [], 'add_only': True},
